@@ -25,6 +25,7 @@ type c17Case struct {
 	Resp      int    `json:"resp_class"`
 	WS        bool   `json:"ws,omitempty"` // WebSocket upgrade request (Connection: Upgrade, Upgrade: websocket)
 	SlowUp    bool   `json:"slow_upload,omitempty"` // chunked upload written in 6 slices 300 ms apart
+	Refresh   bool   `json:"refresh,omitempty"`     // own login, then wait past --cookie-refresh: this request refreshes the session
 	PathClass string `json:"path_class"`
 	QClass    string `json:"query_class"`
 }
@@ -333,6 +334,7 @@ const (
 	c17RespTunnel  = 30 // 101 Switching Protocols, then a small dialogue through the tunnel
 	c17RespRefuse  = 31 // plain 403, no protocol switch
 	c17RespPlainOK = 32 // plain 200 with a body, no protocol switch
+	c17RespCache   = 41 // cacheable answer: Cache-Control / Expires / Pragma / Vary / ETag / Last-Modified
 	c17RespSlow    = 40 // headers at once, then 6 body chunks 300 ms apart (1.8 s in all)
 )
 
@@ -385,6 +387,15 @@ func c17CoreCases(s *c17Set, thorough bool) []*c17Case {
 	var out []*c17Case
 	for _, p := range paths {
 		out = append(out, &c17Case{Method: "GET", Path: p, Host: "proxy.test", HdrClass: "plain", BodyKind: "none"})
+	}
+	if s.Refresh {
+		var out []*c17Case
+		for i, b := range s.Bases {
+			for k, rc := range []int{c17RespCache, 1, 0, c17RespCache} {
+				out = append(out, &c17Case{Method: []string{"GET", "POST", "HEAD"}[(i+k)%3], Path: c17PathFrom(b, fmt.Sprintf("fresh%d", k)), Query: []string{"", "?x=1"}[k%2], Host: "proxy.test", HdrClass: "plain", BodyKind: "none", Resp: rc, Refresh: true})
+			}
+		}
+		return out
 	}
 	if s.Tiny {
 		var out []*c17Case
